@@ -215,7 +215,7 @@ func (fr *Frame) indexAddr(x *ssa.IndexAddr, st *State, c string) Val {
 		}
 		fr.safety("bounds", c, and("(<= 0 "+idx+")", "(< "+idx+" "+base.L[2]+")"), x, "index out of range: "+x.X.Name()+"["+x.Index.Name()+"]")
 		fx.assert(implies(c, and("(<= 0 "+idx+")", "(< "+idx+" "+base.L[2]+")")))
-		return Val{T: x.Type(), Loc: &Loc{Elem: true, Root: rootKey(et), RootT: et, Ref: base.L[0], Idx: fx.name("(+ "+base.L[1]+" "+idx+")", "Int", "ix"), T: et}}
+		return Val{T: x.Type(), Loc: &Loc{Elem: true, Root: rootKey(et), RootT: et, Ref: base.L[0], Idx: "(ix " + base.L[1] + " " + idx + ")", T: et}}
 	case *types.Pointer:
 		arr := u.Elem().Underlying().(*types.Array)
 		et := arr.Elem()
